@@ -17,7 +17,7 @@ META = {
              'retag + splice; roReplace: whole roCreate; roMetadataReplace: each carried element exactly once). '
              'Signature = (kind, status, shapes, position class, layout, sizes, outcome).'),
     'workers': {'quick': 12, 'thorough': 16},
-    'watchdog': {'quick': 300, 'thorough': 1800},
+    'watchdog': {'quick': 600, 'thorough': 3600},
     'assumptions': ['text placed directly inside storyBody or in its tail is outside the claim'],
 }
 
